@@ -32,13 +32,13 @@ class SList:
 
     def snap(self):
         c = SList(self.esort, self.n, self.a, self.name)
-        for k in ('posf', 'memberf', 'src', 'dst', 'base', 'cond_at', 'elt_at', 'sample_src', 'sample_pop'):
+        for k in ('posf', 'memberf', 'src', 'dst', 'base', 'cond_at', 'elt_at', 'sample_src', 'sample_pop', 'perm', 'inv'):
             if k in self.__dict__:
                 c.__dict__[k] = self.__dict__[k]
         return c
 
     def havoc(self):
-        for k in ('posf', 'memberf', 'src', 'dst', 'base', 'cond_at', 'elt_at', 'sample_src', 'sample_pop'):
+        for k in ('posf', 'memberf', 'src', 'dst', 'base', 'cond_at', 'elt_at', 'sample_src', 'sample_pop', 'perm', 'inv'):
             self.__dict__.pop(k, None)
         zs = self.esort.zsort() if isinstance(self.esort, TupleSpec) else self.esort
         self.n = fresh(self.name + '_n', I)
